@@ -919,3 +919,516 @@ Lemma pending_linear_state : forall hash c all (revs : list (rev hash)) k p,
   linear_state hash all revs k p ->
   pending c all revs = ((match skipn k all with [] => PNoPending | l => PFiles l end), None).
 Proof. intros hash. apply pending_linear_state_aux. Qed.
+
+(** * 5. the documented properties *)
+
+(** The files a decision names (to run, or to report in the non-linear error). *)
+Definition result_files (r : presult) : list file :=
+  match r with PFiles p => p | PNonLinear s p => s ++ p | _ => [] end.
+
+Lemma finish_files p : result_files (finish p) = p.
+Proof. destruct p; reflexivity. Qed.
+
+Lemma finish_nonempty p f : In f p -> finish p = PFiles p.
+Proof. destruct p; [intros []|reflexivity]. Qed.
+
+Lemma by_order_files o s p f : In f (result_files (by_order o s p)) -> In f s \/ In f p.
+Proof.
+  destruct o; simpl.
+  - destruct s as [|a s]; [rewrite finish_files; auto|]. simpl. intros [<-|H]; [left; left; reflexivity|].
+    apply in_app_or in H as [H|H]; [left; right; exact H|right; exact H].
+  - rewrite finish_files. auto.
+  - rewrite finish_files. apply in_app_or.
+Qed.
+
+Lemma by_order_contains o s p f : In f p ->
+  match by_order o s p with PFiles q => In f q | PNonLinear _ q => In f q | _ => False end.
+Proof.
+  intros H. destruct o; simpl.
+  - destruct s; [rewrite (finish_nonempty p f H)|]; exact H.
+  - rewrite (finish_nonempty p f H). exact H.
+  - rewrite (finish_nonempty (s ++ p) f); apply in_or_app; right; exact H.
+Qed.
+
+Section Properties.
+Variable hash : Type.
+Notation rev := (rev hash).
+
+Lemma last_indep (revs : list rev) a b : revs <> [] -> last revs a = last revs b.
+Proof. intros Hne. destruct (exists_last Hne) as (l & x & ->). rewrite !last_last. reflexivity. Qed.
+
+Lemma pending_hist_spec c all (revs : list rev) r0 :
+  sorted_files all -> sorted_revs revs -> revs <> [] ->
+  pending c all revs = hist_spec hash c all revs (hd r0 revs) (last revs r0).
+Proof.
+  intros Hsa Hsr Hne. rewrite (pending_refines hash c all revs Hsa Hsr).
+  destruct revs as [|r1 tl]; [congruence|]. unfold pending_spec. cbn [hd].
+  rewrite (last_indep (r1 :: tl) r1 r0 Hne). reflexivity.
+Qed.
+
+Lemma last_ver_unique (revs : list rev) r0 r :
+  sorted_revs revs -> In r revs -> r_version r = r_version (last revs r0) -> r = last revs r0.
+Proof.
+  intros Hs Hin E. destruct (sorted_revs_last_max hash revs r0 r Hs Hin) as [H|H]; [exact H|].
+  rewrite E, bytes_ltb_irrefl in H. discriminate.
+Qed.
+
+Lemma newer_no_rev all (revs : list rev) r0 r f :
+  sorted_revs revs -> In r revs -> In f (newer (r_version (last revs r0)) all) ->
+  r_version r <> f_version f.
+Proof.
+  intros Hs Hin Hf E. unfold newer in Hf. apply filter_In in Hf as [_ Hf].
+  apply andb_true_iff in Hf as [_ Hf]. rewrite <- E in Hf.
+  destruct (sorted_revs_last_max hash revs r0 r Hs Hin) as [H|H].
+  - rewrite <- H, bytes_ltb_irrefl in Hf. discriminate.
+  - rewrite (bytes_ltb_asym _ _ H) in Hf. discriminate.
+Qed.
+
+Lemma ooo_no_rev fv lv all (revs : list rev) r f :
+  In r revs -> In f (ooo_files fv lv revs all) -> r_version r <> f_version f.
+Proof.
+  intros Hin Hf E. unfold ooo_files in Hf. apply filter_In in Hf as [_ Hf].
+  apply andb_true_iff in Hf as [_ Hf]. rewrite <- E, (has_rev_of_In hash revs r Hin) in Hf. discriminate.
+Qed.
+
+Lemma find_In_sorted all g :
+  sorted_files all -> In g all ->
+  find (fun f => bytes_eqb (f_version f) (f_version g)) all = Some g.
+Proof. intros Hs Hin. apply in_split in Hin as (l1 & l2 & ->). apply find_sorted. exact Hs. Qed.
+
+(** (A) never a fully applied version again *)
+Lemma never_applied_again c all (revs : list rev) f r :
+  sorted_files all -> sorted_revs revs ->
+  In f (result_files (fst (pending c all revs))) ->
+  In r revs -> r_version r = f_version f -> ~ complete r.
+Proof.
+  intros Hsa Hsr Hf Hr Ev Hc.
+  assert (revs <> []) as Hne by (destruct revs; [destruct Hr|discriminate]).
+  rewrite (pending_hist_spec c all revs r Hsa Hsr Hne) in Hf.
+  unfold hist_spec in Hf. cbv zeta in Hf.
+  assert (forall g, bytes_eqb (f_version g) (r_version (last revs r)) = true ->
+          r_applied (last revs r) =? r_total (last revs r) = false ->
+          In f (g :: newer (r_version (last revs r)) all) -> False) as Hcons.
+  { intros g Hg Ec [<-|Hn]; [|exact (newer_no_rev all revs r r f Hsr Hr Hn Ev)].
+    apply bytes_eqb_eq in Hg. rewrite <- Ev in Hg.
+    apply (last_ver_unique revs r r Hsr Hr) in Hg. rewrite <- Hg in Ec.
+    apply Nat.eqb_neq in Ec. apply Ec. exact Hc. }
+  destruct (r_applied (last revs r) =? r_total (last revs r)) eqn:Ec.
+  - simpl in Hf. apply by_order_files in Hf as [Hf|Hf].
+    + exact (ooo_no_rev _ _ all revs r f Hr Hf Ev).
+    + exact (newer_no_rev all revs r r f Hsr Hr Hf Ev).
+  - destruct (find _ all) as [g|] eqn:Efind.
+    + apply find_some in Efind as [_ Hg].
+      destruct (f_ckpt g); simpl in Hf.
+      * exact (Hcons g Hg eq_refl Hf).
+      * apply by_order_files in Hf as [Hf|Hf]; [exact (ooo_no_rev _ _ all revs r f Hr Hf Ev)|].
+        exact (Hcons g Hg eq_refl Hf).
+    + destruct (existsb _ all); simpl in Hf; exact Hf.
+Qed.
+
+(** (B) every version newer than the last applied one *)
+Lemma all_newer_pending c all (revs : list rev) r0 f :
+  sorted_files all -> sorted_revs revs -> revs <> [] ->
+  In f all -> f_ckpt f = false -> bytes_ltb (r_version (last revs r0)) (f_version f) = true ->
+  match fst (pending c all revs) with
+  | PFiles p => In f p
+  | PNonLinear _ p => In f p
+  | PMissing v => v = r_version (last revs r0) /\ ~ complete (last revs r0) /\
+                  (forall g, In g all -> f_version g <> v)
+  | _ => False
+  end.
+Proof.
+  intros Hsa Hsr Hne Hin Hck Hlt.
+  rewrite (pending_hist_spec c all revs r0 Hsa Hsr Hne). unfold hist_spec. cbv zeta.
+  assert (In f (newer (r_version (last revs r0)) all)) as Hn.
+  { unfold newer. apply filter_In. rewrite Hck, Hlt. auto. }
+  destruct (r_applied (last revs r0) =? r_total (last revs r0)) eqn:Ec.
+  - simpl.
+    match goal with |- context [by_order ?o ?s ?p] =>
+      pose proof (by_order_contains o s p f Hn) as X; destruct (by_order o s p); try exact X; try contradiction end.
+  - destruct (find _ all) as [g|] eqn:Efind.
+    + destruct (f_ckpt g); simpl; [right; exact Hn|].
+      match goal with |- context [by_order ?o ?s ?p] =>
+        pose proof (by_order_contains o s p f (or_intror Hn)) as X; destruct (by_order o s p); try exact X; try contradiction end.
+    + assert (existsb (fun f0 => negb (f_ckpt f0)) all = true) as ->.
+      { apply existsb_exists. exists f. rewrite Hck. auto. }
+      simpl. repeat split.
+      * intros Hc. apply Nat.eqb_neq in Ec. apply Ec. exact Hc.
+      * intros g Hg. apply bytes_eqb_neq. exact (find_none _ _ Efind g Hg).
+Qed.
+
+(** (C) the partially applied file first *)
+Lemma partial_first_ckpt c all (revs : list rev) r0 g :
+  sorted_files all -> sorted_revs revs -> revs <> [] -> ~ complete (last revs r0) ->
+  In g all -> f_version g = r_version (last revs r0) -> f_ckpt g = true ->
+  pending c all revs = (PFiles (g :: newer (r_version (last revs r0)) all), None).
+Proof.
+  intros Hsa Hsr Hne Hp Hin Hv Hck.
+  rewrite (pending_hist_spec c all revs r0 Hsa Hsr Hne). unfold hist_spec. cbv zeta.
+  assert (r_applied (last revs r0) =? r_total (last revs r0) = false) as -> by (apply Nat.eqb_neq; exact Hp).
+  rewrite <- Hv. rewrite (find_In_sorted all g Hsa Hin), Hck. reflexivity.
+Qed.
+
+Lemma partial_first_file c all (revs : list rev) r0 g :
+  sorted_files all -> sorted_revs revs -> revs <> [] -> ~ complete (last revs r0) ->
+  In g all -> f_version g = r_version (last revs r0) -> f_ckpt g = false ->
+  pending c all revs =
+  (by_order (c_order c)
+     (ooo_files (r_version (hd r0 revs)) (r_version (last revs r0)) revs all)
+     (g :: newer (r_version (last revs r0)) all), None).
+Proof.
+  intros Hsa Hsr Hne Hp Hin Hv Hck.
+  rewrite (pending_hist_spec c all revs r0 Hsa Hsr Hne). unfold hist_spec. cbv zeta.
+  assert (r_applied (last revs r0) =? r_total (last revs r0) = false) as -> by (apply Nat.eqb_neq; exact Hp).
+  rewrite <- Hv. rewrite (find_In_sorted all g Hsa Hin), Hck. reflexivity.
+Qed.
+
+Lemma partial_missing c all (revs : list rev) r0 :
+  sorted_files all -> sorted_revs revs -> revs <> [] -> ~ complete (last revs r0) ->
+  (forall g, In g all -> f_version g <> r_version (last revs r0)) ->
+  pending c all revs =
+  (if existsb (fun f => negb (f_ckpt f)) all then PMissing (r_version (last revs r0)) else PNoPending, None).
+Proof.
+  intros Hsa Hsr Hne Hp Hno.
+  rewrite (pending_hist_spec c all revs r0 Hsa Hsr Hne). unfold hist_spec. cbv zeta.
+  assert (r_applied (last revs r0) =? r_total (last revs r0) = false) as -> by (apply Nat.eqb_neq; exact Hp).
+  rewrite find_none_all.
+  - destruct (existsb _ all); reflexivity.
+  - intros x Hx. apply bytes_eqb_neq. apply Hno. exact Hx.
+Qed.
+
+(** (D) first run: the latest checkpoint, and only it, is the starting point *)
+Lemma first_run_from_checkpoint c pre ck rest :
+  c_dirty c && negb (c_allow_dirty c) = false -> c_baseline c = None ->
+  f_ckpt ck = true -> (forall f, In f rest -> f_ckpt f = false) ->
+  pending (hash := hash) c (pre ++ ck :: rest) [] = (PFiles (ck :: rest), None).
+Proof.
+  intros Hd Hb Hck Hrest. rewrite pending_first, Hb, Hd. simpl.
+  unfold files_from_last_checkpoint. rewrite (fli_app_last f_ckpt pre ck rest Hck Hrest).
+  rewrite skipn_app_exact. reflexivity.
+Qed.
+
+Lemma first_run_no_checkpoint c all :
+  c_dirty c && negb (c_allow_dirty c) = false -> c_baseline c = None ->
+  (forall f, In f all -> f_ckpt f = false) ->
+  pending (hash := hash) c all [] = (finish all, None).
+Proof.
+  intros Hd Hb Hno. rewrite pending_first, Hb, Hd. simpl.
+  unfold files_from_last_checkpoint. rewrite (proj2 (fli_None f_ckpt all) Hno). reflexivity.
+Qed.
+
+Lemma last_checkpoint_split all :
+  (forall f, In f all -> f_ckpt f = false) \/
+  exists pre ck rest, all = pre ++ ck :: rest /\ f_ckpt ck = true /\ (forall f, In f rest -> f_ckpt f = false).
+Proof.
+  destruct (files_last_index f_ckpt all) as [i|] eqn:E.
+  - right. apply fli_Some in E as (l1 & f & l2 & -> & _ & Hp & Hn). exists l1, f, l2. auto.
+  - left. apply fli_None. exact E.
+Qed.
+
+(** (E) baseline *)
+Lemma baseline_not_found c all bv :
+  c_baseline c = Some bv ->
+  (forall f, In f all -> f_ckpt f = false -> f_version f <> bv) ->
+  pending (hash := hash) c all [] = (PBaselineNotFound, None).
+Proof.
+  intros Hb Hno. rewrite pending_first, Hb. rewrite andb_false_r.
+  rewrite (proj2 (fli_None _ (skip_checkpoints all))); [reflexivity|].
+  intros f Hf. apply skip_checkpoints_In in Hf as [Hin Hck]. apply bytes_eqb_neq. auto.
+Qed.
+
+Lemma baseline_skipped_general c all bv pre g p :
+  c_baseline c = Some bv ->
+  skip_checkpoints all = pre ++ g :: p -> f_version g = bv ->
+  (forall x, In x p -> f_version x <> bv) ->
+  pending (hash := hash) c all [] = (finish p, Some (baseline_rev bv)).
+Proof.
+  intros Hb Hm Hg Hp. rewrite pending_first, Hb. rewrite andb_false_r. rewrite Hm.
+  rewrite (fli_app_last _ pre g p).
+  - rewrite skipn_app_exact_S. reflexivity.
+  - apply bytes_eqb_eq. exact Hg.
+  - intros x Hx. apply bytes_eqb_neq. auto.
+Qed.
+
+Lemma baseline_skipped c all bv g :
+  sorted_files all -> c_baseline c = Some bv ->
+  In g all -> f_ckpt g = false -> f_version g = bv ->
+  pending (hash := hash) c all [] = (finish (newer bv all), Some (baseline_rev bv)).
+Proof.
+  intros Hsa Hb Hin Hck Hv. rewrite (first_refines hash c all Hsa). unfold first_spec. rewrite Hb.
+  rewrite andb_false_r.
+  assert (existsb (fun f => negb (f_ckpt f) && bytes_eqb (f_version f) bv) all = true) as ->; [|reflexivity].
+  apply existsb_exists. exists g. rewrite Hck, Hv, bytes_eqb_refl. auto.
+Qed.
+
+Lemma newer_In v all f : In f (newer v all) <-> In f all /\ f_ckpt f = false /\ bytes_ltb v (f_version f) = true.
+Proof. unfold newer. rewrite filter_In, andb_true_iff, negb_true_iff. reflexivity. Qed.
+
+(** (F) out-of-order files *)
+Lemma out_of_order c all (revs : list rev) r0 :
+  sorted_files all -> sorted_revs revs -> revs <> [] -> complete (last revs r0) ->
+  pending c all revs =
+  (by_order (c_order c)
+     (ooo_files (r_version (hd r0 revs)) (r_version (last revs r0)) revs all)
+     (newer (r_version (last revs r0)) all), None).
+Proof.
+  intros Hsa Hsr Hne Hc.
+  rewrite (pending_hist_spec c all revs r0 Hsa Hsr Hne). unfold hist_spec. cbv zeta.
+  assert (r_applied (last revs r0) =? r_total (last revs r0) = true) as -> by (apply Nat.eqb_eq; exact Hc).
+  reflexivity.
+Qed.
+
+Lemma ooo_files_In fv lv (revs : list rev) all f :
+  In f (ooo_files fv lv revs all) <->
+  In f all /\ f_ckpt f = false /\ bytes_leb fv (f_version f) = true /\
+  bytes_ltb (f_version f) lv = true /\ has_rev revs (f_version f) = false.
+Proof.
+  unfold ooo_files. rewrite filter_In, !andb_true_iff, !negb_true_iff. tauto.
+Qed.
+
+Lemma ooo_newer_disjoint fv lv (revs : list rev) all f :
+  In f (ooo_files fv lv revs all) -> In f (newer lv all) -> False.
+Proof.
+  intros H1 H2. apply ooo_files_In in H1 as (_ & _ & _ & L & _). apply newer_In in H2 as (_ & _ & G).
+  rewrite (bytes_ltb_asym _ _ L) in G. discriminate.
+Qed.
+
+Lemma out_of_order_skip c all (revs : list rev) r0 f :
+  sorted_files all -> sorted_revs revs -> revs <> [] -> c_order c = LinearSkip ->
+  In f (result_files (fst (pending c all revs))) ->
+  ~ In f (ooo_files (r_version (hd r0 revs)) (r_version (last revs r0)) revs all).
+Proof.
+  intros Hsa Hsr Hne Ho Hf Hooo.
+  rewrite (pending_hist_spec c all revs r0 Hsa Hsr Hne) in Hf. unfold hist_spec in Hf. cbv zeta in Hf.
+  rewrite Ho in Hf. cbn [by_order] in Hf.
+  assert (forall g, bytes_eqb (f_version g) (r_version (last revs r0)) = true ->
+          In f (g :: newer (r_version (last revs r0)) all) -> False) as Hcons.
+  { intros g Hg [<-|Hn]; [|exact (ooo_newer_disjoint _ _ _ _ _ Hooo Hn)].
+    apply ooo_files_In in Hooo as (_ & _ & _ & L & _). apply bytes_eqb_eq in Hg.
+    rewrite Hg, bytes_ltb_irrefl in L. discriminate. }
+  destruct (r_applied (last revs r0) =? r_total (last revs r0)).
+  - simpl in Hf. rewrite finish_files in Hf. exact (ooo_newer_disjoint _ _ _ _ _ Hooo Hf).
+  - destruct (find _ all) as [g|] eqn:Efind.
+    + apply find_some in Efind as [_ Hg]. destruct (f_ckpt g); simpl in Hf; exact (Hcons g Hg Hf).
+    + destruct (existsb _ all); simpl in Hf; exact Hf.
+Qed.
+
+(** with no out-of-order file the execution order is irrelevant *)
+Lemma in_order_same c c' all (revs : list rev) r0 :
+  sorted_files all -> sorted_revs revs -> revs <> [] ->
+  ooo_files (r_version (hd r0 revs)) (r_version (last revs r0)) revs all = [] ->
+  c_baseline c' = c_baseline c -> c_allow_dirty c' = c_allow_dirty c -> c_dirty c' = c_dirty c ->
+  pending c' all revs = pending c all revs.
+Proof.
+  intros Hsa Hsr Hne Hooo _ _ _.
+  rewrite !(pending_hist_spec _ all revs r0 Hsa Hsr Hne). unfold hist_spec. cbv zeta.
+  rewrite Hooo. rewrite !by_order_nil.
+  destruct (r_applied (last revs r0) =? r_total (last revs r0)); [reflexivity|].
+  destruct (find _ all) as [g|]; [|reflexivity].
+  rewrite !by_order_nil. reflexivity.
+Qed.
+
+End Properties.
+
+(** (G) ExecuteN runs the first n pending files *)
+Section RunProps.
+Variable hash : Type.
+Variable hash_eqb : hash -> hash -> bool.
+Variable HS : bytes -> hash.
+
+Lemma execute_n_first_n c n all (t : list (rev hash)) fs p :
+  pending c all (read_revisions hash t) = (PFiles p, None) ->
+  execute_n hash hash_eqb HS c n all t fs =
+  (let '(o, t2, fs2, es) := exec_files hash hash_eqb HS (if 0 <? n then firstn n p else p) t fs in
+   (RExec o, t2, fs2, es)).
+Proof.
+  intros H. unfold execute_n. rewrite H. cbn [negb].
+  destruct (exec_files hash hash_eqb HS (if 0 <? n then firstn n p else p) t fs) as [[[o t2] fs2] es].
+  reflexivity.
+Qed.
+
+Lemma execute_n_error c n all (t : list (rev hash)) fs r :
+  pending c all (read_revisions hash t) = (r, None) ->
+  (forall p, r <> PFiles p) ->
+  execute_n hash hash_eqb HS c n all t fs = (RPend r, t, fs, []).
+Proof.
+  intros H Hr. unfold execute_n. rewrite H. cbn [negb].
+  destruct r; try reflexivity. exfalso. apply (Hr fs0). reflexivity.
+Qed.
+
+End RunProps.
+
+(** * 6. the partial revision is resumed when it is the last one; the reader's order *)
+
+Lemma by_order_result_In o s p f : In f p -> In f (result_files (by_order o s p)).
+Proof.
+  intros H. pose proof (by_order_contains o s p f H) as X.
+  destruct (by_order o s p); simpl; try contradiction; [exact X|apply in_or_app; right; exact X].
+Qed.
+
+Section Resume.
+Variable hash : Type.
+Notation rev := (rev hash).
+
+Lemma only_last_partial_is_last (revs : list rev) r :
+  only_last_partial revs -> In r revs -> ~ complete r -> r = last revs r.
+Proof.
+  intros Ho Hin Hp. assert (revs <> []) as Hne by (destruct revs; [destruct Hin|discriminate]).
+  rewrite (revs_snoc hash revs r Hne) in Hin. apply in_app_or in Hin as [Hin|[E|[]]]; [|symmetry; exact E].
+  unfold only_last_partial in Ho. rewrite Forall_forall in Ho. exfalso. apply Hp. apply Ho. exact Hin.
+Qed.
+
+(** Under "only the last revision may be partial", the file of every partial revision
+    is named by the decision (this is what fails for non-linear histories, see
+    [C11_partial_not_last_refuted]). *)
+Lemma partial_resumed c all (revs : list rev) r g :
+  sorted_files all -> sorted_revs revs -> only_last_partial revs ->
+  In r revs -> ~ complete r -> In g all -> f_version g = r_version r ->
+  In g (result_files (fst (pending c all revs))).
+Proof.
+  intros Hsa Hsr Ho Hin Hp Hg Hv.
+  assert (revs <> []) as Hne by (destruct revs; [destruct Hin|discriminate]).
+  pose proof (only_last_partial_is_last revs r Ho Hin Hp) as El.
+  assert (~ complete (last revs r)) as Hp' by (rewrite <- El; exact Hp).
+  assert (f_version g = r_version (last revs r)) as Hv' by (rewrite <- El; exact Hv).
+  destruct (f_ckpt g) eqn:Ck.
+  - rewrite (partial_first_ckpt hash c all revs r g Hsa Hsr Hne Hp' Hg Hv' Ck). simpl. left. reflexivity.
+  - rewrite (partial_first_file hash c all revs r g Hsa Hsr Hne Hp' Hg Hv' Ck). cbn [fst].
+    apply by_order_result_In. left. reflexivity.
+Qed.
+
+(** [read_revisions] (the CLI reader: ORDER BY version) returns a strictly sorted list
+    whenever versions are unique in the table (they are its primary key). *)
+Lemma insert_rev_In (r : rev) l y : In y (insert_rev hash r l) <-> y = r \/ In y l.
+Proof.
+  induction l as [|x l IH]; simpl.
+  - split; [intros [<-|[]]; auto|intros [->|[]]; auto].
+  - destruct (bytes_leb (r_version r) (r_version x)); simpl.
+    + split; [intros [<-|H]; auto|intros [->|H]; auto].
+    + rewrite IH. split; [intros [H|[H|H]]; auto|intros [H|[H|H]]; auto].
+Qed.
+
+Lemma insert_rev_sorted (r : rev) l :
+  sorted_revs l -> (forall x, In x l -> r_version x <> r_version r) -> sorted_revs (insert_rev hash r l).
+Proof.
+  induction 1 as [|x l Hs IH Hf]; intros Hne; simpl.
+  - repeat constructor.
+  - rewrite Forall_forall in Hf.
+    destruct (bytes_leb (r_version r) (r_version x)) eqn:E.
+    + assert (bytes_ltb (r_version r) (r_version x) = true) as L.
+      { apply bytes_leb_cases in E as [L|E]; [exact L|]. exfalso. apply (Hne x); [left; reflexivity|congruence]. }
+      constructor; [constructor; [exact Hs|apply Forall_forall; exact Hf]|].
+      apply Forall_forall. intros y [<-|Hy]; [exact L|].
+      unfold rver_lt. eapply bytes_ltb_trans; [exact L|]. apply Hf. exact Hy.
+    + apply bytes_leb_false_ltb in E. constructor.
+      * apply IH. intros y Hy. apply Hne. right. exact Hy.
+      * apply Forall_forall. intros y Hy. apply insert_rev_In in Hy as [->|Hy]; [exact E|apply Hf; exact Hy].
+Qed.
+
+Lemma read_revisions_In (t : list rev) y : In y (read_revisions hash t) <-> In y t.
+Proof.
+  unfold read_revisions. induction t as [|x t IH]; simpl; [reflexivity|].
+  rewrite insert_rev_In, IH. split; [intros [->|H]; auto|intros [->|H]; auto].
+Qed.
+
+Lemma read_revisions_sorted (t : list rev) :
+  NoDup (map (@r_version hash) t) -> sorted_revs (read_revisions hash t).
+Proof.
+  unfold read_revisions. induction t as [|x t IH]; simpl; intros Hnd; [constructor|].
+  inversion Hnd as [|? ? Hni Hnd']; subst. apply insert_rev_sorted; [apply IH; exact Hnd'|].
+  intros y Hy E. apply Hni. rewrite <- E. apply in_map. apply read_revisions_In. exact Hy.
+Qed.
+
+End Resume.
+
+(** * 7. explicit forms used by Props_C11.v, and the refutation witness *)
+
+Lemma by_order_cons o s g p :
+  by_order o s (g :: p) =
+  match o with
+  | LinearSkip => PFiles (g :: p)
+  | NonLinear => PFiles (s ++ g :: p)
+  | Linear => match s with [] => PFiles (g :: p) | _ => PNonLinear s (g :: p) end
+  end.
+Proof.
+  destruct o; simpl; try reflexivity. destruct s; reflexivity.
+Qed.
+
+Lemma finish_app_nonempty s p : s <> [] -> finish (s ++ p) = PFiles (s ++ p).
+Proof. destruct s; [congruence|reflexivity]. Qed.
+
+Section Explicit.
+Variable hash : Type.
+Notation rev := (rev hash).
+
+Lemma partial_first_file_explicit c all (revs : list rev) r0 g :
+  sorted_files all -> sorted_revs revs -> revs <> [] -> ~ complete (last revs r0) ->
+  In g all -> f_version g = r_version (last revs r0) -> f_ckpt g = false ->
+  pending c all revs =
+  (match c_order c with
+   | LinearSkip => PFiles (g :: newer (r_version (last revs r0)) all)
+   | NonLinear => PFiles (ooo_files (r_version (hd r0 revs)) (r_version (last revs r0)) revs all
+                          ++ g :: newer (r_version (last revs r0)) all)
+   | Linear => match ooo_files (r_version (hd r0 revs)) (r_version (last revs r0)) revs all with
+               | [] => PFiles (g :: newer (r_version (last revs r0)) all)
+               | _ => PNonLinear (ooo_files (r_version (hd r0 revs)) (r_version (last revs r0)) revs all)
+                                 (g :: newer (r_version (last revs r0)) all)
+               end
+   end, None).
+Proof.
+  intros Hsa Hsr Hne Hp Hin Hv Hck.
+  rewrite (partial_first_file hash c all revs r0 g Hsa Hsr Hne Hp Hin Hv Hck).
+  rewrite by_order_cons. reflexivity.
+Qed.
+
+Lemma out_of_order_linear c all (revs : list rev) r0 :
+  sorted_files all -> sorted_revs revs -> revs <> [] -> complete (last revs r0) ->
+  c_order c = Linear ->
+  ooo_files (r_version (hd r0 revs)) (r_version (last revs r0)) revs all <> [] ->
+  pending c all revs =
+  (PNonLinear (ooo_files (r_version (hd r0 revs)) (r_version (last revs r0)) revs all)
+              (newer (r_version (last revs r0)) all), None).
+Proof.
+  intros Hsa Hsr Hne Hc Ho Hooo. rewrite (out_of_order hash c all revs r0 Hsa Hsr Hne Hc), Ho. simpl.
+  destruct (ooo_files _ _ revs all); [congruence|reflexivity].
+Qed.
+
+Lemma out_of_order_nonlinear c all (revs : list rev) r0 :
+  sorted_files all -> sorted_revs revs -> revs <> [] -> complete (last revs r0) ->
+  c_order c = NonLinear ->
+  ooo_files (r_version (hd r0 revs)) (r_version (last revs r0)) revs all <> [] ->
+  pending c all revs =
+  (PFiles (ooo_files (r_version (hd r0 revs)) (r_version (last revs r0)) revs all
+           ++ newer (r_version (last revs r0)) all), None).
+Proof.
+  intros Hsa Hsr Hne Hc Ho Hooo. rewrite (out_of_order hash c all revs r0 Hsa Hsr Hne Hc), Ho. simpl.
+  rewrite finish_app_nonempty by exact Hooo. reflexivity.
+Qed.
+
+End Explicit.
+
+(** The documented "partially applied file first" is false of the faithful model when the
+    partial revision is not the greatest recorded version: files 1,2,3; revisions
+    1 complete, 2 partial (1/3), 3 complete; --exec-order non-linear: "no pending files". *)
+Definition w_files : list file :=
+  [mkFile [49%N] [[65%N]] false; mkFile [50%N] [[65%N]; [66%N]; [67%N]] false; mkFile [51%N] [[65%N]] false].
+Definition w_revs : list (rev unit) :=
+  [mkRev [49%N] 1 1 [] false 2%N; mkRev [50%N] 1 3 [tt] true 2%N; mkRev [51%N] 1 1 [] false 2%N].
+
+Lemma w_files_sorted : sorted_files w_files.
+Proof. unfold sorted_files, w_files, fver_lt. repeat constructor. Qed.
+
+Lemma w_revs_sorted : sorted_revs w_revs.
+Proof. unfold sorted_revs, w_revs, rver_lt. repeat constructor. Qed.
+
+Lemma partial_not_last_witness :
+  exists (c : cfg) (all : list file) (revs : list (rev unit)) (r : rev unit) (g : file),
+    sorted_files all /\ sorted_revs revs /\ In r revs /\ r_applied r <> r_total r /\
+    In g all /\ f_ckpt g = false /\ f_version g = r_version r /\
+    pending c all revs = (PNoPending, None).
+Proof.
+  exists (mkCfg NonLinear None false false), w_files, w_revs,
+         (mkRev [50%N] 1 3 [tt] true 2%N), (mkFile [50%N] [[65%N]; [66%N]; [67%N]] false).
+  split; [exact w_files_sorted|]. split; [exact w_revs_sorted|].
+  vm_compute. repeat split; auto; discriminate.
+Qed.
